@@ -194,6 +194,7 @@ pub fn check_def(id: &str, tier: Tier) -> Option<CheckDef> {
         "C14" => CheckDef { id: "C14", worlds: c14_worlds(tier), oracle: oracles::sem::c14 },
         "C15" => CheckDef { id: "C15", worlds: c15_worlds(tier), oracle: oracles::sem::c15 },
         "C16" => CheckDef { id: "C16", worlds: c16_worlds(tier), oracle: oracles::sem::c16 },
+        "C13" => CheckDef { id: "C13", worlds: c13_worlds(tier), oracle: oracles::c13::c13 },
         _ => return None,
     })
 }
@@ -387,8 +388,100 @@ pub fn c16_worlds(tier: Tier) -> Vec<WorldSpec> {
 }
 
 /// All targets of a check in a fixed order (the worker processes index into this list).
-pub fn targets_for(id: &str, tier: Tier) -> Option<Vec<WorldTarget>> {
+pub fn targets_for(id: &str, tier: Tier) -> Option<Vec<Box<dyn Target>>> {
+    use crate::threaded::*;
+    if id == "C18" || id == "C19" || id == "SELFTEST" {
+        let oracle: fn(&TSpec, &Exec) -> Option<Viol> = match id {
+            "C18" => c18,
+            "C19" => c19,
+            _ => toy_oracle,
+        };
+        return Some(tworlds(id, tier).into_iter().map(|spec| Box::new(TTarget { spec, oracle }) as Box<dyn Target>).collect());
+    }
     let def = check_def(id, tier)?;
     let oracle = def.oracle;
-    Some(def.worlds.into_iter().map(|spec| WorldTarget { spec, oracle, digest: false }).collect())
+    Some(def.worlds.into_iter().map(|spec| Box::new(WorldTarget { spec, oracle, digest: false }) as Box<dyn Target>).collect())
+}
+
+pub fn tworlds(id: &str, tier: Tier) -> Vec<crate::threaded::TSpec> {
+    use crate::threaded::*;
+    let mut v = vec![];
+    let mut add = |name: String, kind: TKind, d: u8, greet: bool, fail: Option<usize>, preempt: u32| {
+        v.push(TSpec { name: format!("{name} d={d}{}{} P={}", if greet { " greet-in-thread" } else { "" }, fail.map(|f| format!(" member{f}-fails")).unwrap_or_default(), if preempt == u32::MAX { "unbounded".to_string() } else { preempt.to_string() }), kind, data_per_thread: d, greet_in_thread: greet, fail_member: fail, preempt });
+    };
+    let quick = q(tier);
+    match id {
+        "SELFTEST" => {
+            add("toy load/store counter".into(), TKind::ToyCounter { atomic_rmw: false }, 2, false, None, 0);
+            add("toy load/store counter".into(), TKind::ToyCounter { atomic_rmw: false }, 2, false, None, 1);
+            add("toy load/store counter".into(), TKind::ToyCounter { atomic_rmw: false }, 2, false, None, u32::MAX);
+            add("toy fetch_add counter".into(), TKind::ToyCounter { atomic_rmw: true }, 2, false, None, u32::MAX);
+        },
+        "C18" => {
+            let p = if quick { 2 } else { 3 };
+            for (kind, name) in [(TKind::Merge(2), "merge/2"), (TKind::Combine(2), "combine/2")] {
+                add(name.into(), kind.clone(), 2, false, None, p);
+                add(name.into(), kind.clone(), 1, true, None, p);
+                add(name.into(), kind.clone(), 1, false, Some(1), p);
+                add(name.into(), kind.clone(), 1, false, None, if quick { 3 } else { u32::MAX });
+                if !quick {
+                    add(name.into(), kind.clone(), 2, true, None, p);
+                    add(name.into(), kind.clone(), 2, false, Some(0), p);
+                    add(name.into(), kind.clone(), 3, false, None, 2);
+                }
+            }
+            for (kind, name) in [(TKind::Merge(3), "merge/3"), (TKind::Combine(3), "combine/3")] {
+                add(name.into(), kind.clone(), 1, false, None, if quick { 2 } else { 3 });
+                if !quick {
+                    add(name.into(), kind.clone(), 1, true, None, 2);
+                    add(name.into(), kind.clone(), 2, false, None, 2);
+                    add(name.into(), kind.clone(), 1, false, Some(2), 2);
+                }
+            }
+        },
+        "C19" => {
+            let p = if quick { 2 } else { 3 };
+            for n in 1..=3usize {
+                add(format!("take({n}) direct x2"), TKind::TakeDirect { n, threads: 2 }, 2, false, None, p);
+                add(format!("take({n}) direct x3"), TKind::TakeDirect { n, threads: 3 }, 1, false, None, if quick { 2 } else { 3 });
+                add(format!("take({n}) . merge/2"), TKind::TakeMerge { n, members: 2 }, 2, false, None, p);
+                if !quick {
+                    add(format!("take({n}) direct x2"), TKind::TakeDirect { n, threads: 2 }, 3, false, None, 2);
+                    add(format!("take({n}) . merge/3"), TKind::TakeMerge { n, members: 3 }, 1, false, None, 2);
+                    add(format!("take({n}) direct x2"), TKind::TakeDirect { n, threads: 2 }, 2, false, None, u32::MAX);
+                }
+            }
+        },
+        _ => {},
+    }
+    v
+}
+
+pub fn c13_worlds(tier: Tier) -> Vec<WorldSpec> {
+    let ops: Vec<(Op, u32, u32)> = vec![
+        (Op::FromIter(vec![1, 2, 3]), 7, 3),
+        (Op::FromIterUnbounded, 6, 3),
+        (Op::Interval(7), 6, 2),
+        (Op::Map, 5, 2),
+        (Op::Filter(Pred::Even), 5, 2),
+        (Op::Scan(0), 5, 2),
+        (Op::Take(2), 5, 2),
+        (Op::Skip(1), 5, 2),
+        (Op::Merge(2), 4, 1),
+        (Op::Concat(2), 4, 2),
+        (Op::Combine(2), 4, 1),
+        (Op::Flatten, 4, 1),
+        (Op::ForEach(None), 6, 2),
+        (Op::ForEach(Some(Box::new(Op::Scan(0)))), 5, 2),
+    ];
+    ops.into_iter()
+        .map(|(op, e, d)| {
+            let (e, d) = if q(tier) { (e, d) } else { (e + 1, d + 1) };
+            let mut s = spec(op, e, d);
+            s.cfg.max_probes = 2;
+            s.cfg.data_budget = 2;
+            s.name = format!("{} x2 E={} D={}", s.name, e, d);
+            s
+        })
+        .collect()
 }
